@@ -114,6 +114,11 @@ func (e *Engine) VerifyMonotone(ct *Contract, prop string) *UnitResult {
 // Verify runs one function against its contract under the projection prop.
 func (e *Engine) Verify(ct *Contract, prop string, findings []Finding) (res *UnitResult) {
 	t0 := time.Now()
+	if ct.Broken != "" {
+		return &UnitResult{Key: ct.Key, Prop: prop, UsedCallee: map[string]map[string]bool{}, Unsup: map[string]int{"contract does not resolve: " + ct.Broken: 1},
+			Obls: []*Obligation{{Name: ct.Key + "#subset", Kind: "subset", Func: ct.Key, Goal: False,
+				Res: &ProveResult{Status: "unsupported", Output: "contract does not resolve against the current source: " + ct.Broken}}}}
+	}
 	u := e.newUnit(ct, prop)
 	for _, n := range ct.Unroll {
 		if n > u.K {
